@@ -29,6 +29,7 @@ theorem todoOf_count (v : Variant) (c : Cfg) (o : Op) (r : Ret) (del : List Key)
   · simp
   · split
     · split <;> simp [List.count_append, count_unlock_map_rem]
+    · split <;> simp [List.count_append, count_unlock_map_rem]
     · simp [count_unlock_map_rem]
 
 /-- the enforcer is inside its removeMessage critical section on mailbox `b` -/
